@@ -27,7 +27,7 @@ PROPS = {
         'not_decided': 'everything numeric',
     },
     'C06': {
-        'rules': ['R05', 'R06', 'R25', 'R28', 'R30'],
+        'rules': ['R05', 'R06', 'R25', 'R28', 'R30', 'R24'],
         'decided': 'every accepted atom / constraint class / objective form has a lowering branch '
                    'in some layer, no shadowed branch, unknown types raise; no constructor field '
                    'of an accepted expression is dropped on the way to its lowering',
@@ -44,9 +44,9 @@ PROPS = {
                        'recursion, brute-force agreement (numeric)',
     },
     'C08': {
-        'rules': ['R14', 'R07'],
+        'rules': ['R14', 'R07', 'R35'],
         'decided': 'complete case analysis of the LP dual over the finite orderings of '
-                   '(lb, ub, 0, +-inf); bound-row sign table',
+                   '(lb, ub, 0, +-inf); bound-row sign table; index searches in the dual builders run on sorted sequences',
         'not_decided': 'SOC/exp/LMI dual blocks, strong duality',
     },
     'C09': {
